@@ -117,6 +117,15 @@ fn limits(out: &mut Out, rt: &tokio::runtime::Runtime, dir: &Path, args: &Args) 
 			emit_build(out, rt, dir, &format!("from_debug format=pbf fast={}", qv(&v)), Some(if ok { "ok" } else { "err" }), "limit-bool");
 		}
 	}
+	// many sibling sources through the factory: flat, not nested – 63/64/65/200 children, each with its own value list
+	for op in ["from_overlayed", "from_vectortiles_merged"] {
+		for n in [63usize, 64, 65, 200] {
+			let t = format!("{op} [{}]", vec!["from_debug format=pbf"; n].join(","));
+			emit_build(out, rt, dir, &t, Some("ok"), "limit-sources");
+			let t = format!("{op} [{}]", vec!["from_debug format=pbf | filter_bbox bbox=[1,2,3,4] | filter_zoom min=[1]"; n].join(" , "));
+			emit_build(out, rt, dir, &t, Some("ok"), "limit-sources");
+		}
+	}
 	// number of sources: 0, 1 are too few; 2, 3, 9 fine
 	for op in ["from_overlayed", "from_vectortiles_merged"] {
 		for n in [0usize, 1, 2, 3, 9] {
